@@ -61,6 +61,10 @@ class Interp:
                 self._var(('i', l), t.s in UNSIGNED)
             if t.k == 'tup' and len(t.args) == 2 and is_int(t.args[0]) and t.args[1].s == 'bool':
                 self._var(('t0', l), t.args[0].s in UNSIGNED)
+            elif t.k == 'tup' and 2 <= len(t.args) <= 4 and all(is_int(a) for a in t.args):
+                # a pair / triple of integers built in one piece and taken apart again (`(end, next_cursor)`)
+                for k_, a_ in enumerate(t.args):
+                    self._var(('tk', l, k_), a_.s in UNSIGNED)
             if lenlike(t):
                 self._var(('L', l), True)
             if is_slice_iter(t):
@@ -211,6 +215,8 @@ class Interp:
                 return None
             i = self.v(('i', pl.local))
             return ('var', i, 0) if i is not None else None
+        if len(pl.proj) == 1 and pl.proj[0][0] == 't' and self.v(('tk', pl.local, pl.proj[0][1])) is not None:
+            return ('var', self.v(('tk', pl.local, pl.proj[0][1])), 0)
         if len(pl.proj) == 1 and pl.proj[0][0] == 't' and pl.proj[0][1] == 0:
             i = self.v(('t0', pl.local))
             return ('var', i, 0) if i is not None else None
@@ -220,6 +226,25 @@ class Interp:
             if sd and sd[1] != 'term' and sd[2][0] == 'ref' and not sd[2][2].proj and sd[2][2].local not in self.untracked:
                 i = self.v(('i', sd[2][2].local))
                 return ('var', i, 0) if i is not None else None
+        return None
+
+    ELEMENTWISE = ('take_while', 'skip_while', 'filter', 'map', 'copied', 'cloned', 'rev', 'enumerate', 'take', 'skip', 'peekable',
+                   'by_ref', 'into_iter', 'inspect', 'filter_map', 'map_while', 'step_by', 'fuse')
+
+    def _iter_base_len(self, op, depth=0):
+        """length variable of the slice / str an iterator operand walks, looking through element-wise adapters"""
+        b = self.b
+        if op[0] not in ('c', 'm') or depth > 8:
+            return None
+        r, _ = operand_root(b, op)
+        sd = single_def(b, r) if r is not None else None
+        if not sd or sd[1] != 'term' or not sd[2][3]:
+            return None
+        nm = (callee(sd[2])[1] or '').split('::')[-1]
+        if nm in ('iter', 'bytes', 'chars', 'char_indices', 'iter_mut'):
+            return self.len_of(sd[2][3][0])
+        if nm in self.ELEMENTWISE:
+            return self._iter_base_len(sd[2][3][0], depth + 1)
         return None
 
     def len_of(self, op):
@@ -252,6 +277,19 @@ class Interp:
         if st[0] != 'a':
             return
         dst, rv = st[1], st[2]
+        if not dst.proj and self.v(('tk', dst.local, 0)) is not None:
+            nk = len(b.locals[dst.local].args)
+            if rv[0] == 'agg' and len(rv[2]) == nk:
+                vals = [self.ev(o) for o in rv[2]]
+                for k_ in range(nk):
+                    self.assign(z, self.v(('tk', dst.local, k_)), vals[k_])
+            elif rv[0] == 'use' and rv[1][0] in ('c', 'm') and not rv[1][1].proj and self.v(('tk', rv[1][1].local, 0)) is not None:
+                for k_ in range(nk):
+                    z.assign_var(self.v(('tk', dst.local, k_)), self.v(('tk', rv[1][1].local, k_)), 0)
+            else:
+                for k_ in range(nk):
+                    self.fresh(z, self.v(('tk', dst.local, k_)))
+            return
         if dst.proj:
             # writes through projections: a tracked tuple field or deref of tracked ref -> give up on that local
             if dst.local < len(b.locals):
@@ -481,6 +519,16 @@ class Interp:
                 else:
                     self.fresh(z, self.v(('L', dl)))
 
+        if short in ('count', 'position', 'rposition') and dl is not None and args and args[0][0] in ('c', 'm'):
+            # `slice.iter().take_while(p).count()` / `.filter(p).count()`: a count of elements of the slice, so at most its length
+            # (bytes of a str: `bytes()` / `as_bytes().iter()`; chars().count() <= byte length as well)
+            base = self._iter_base_len(args[0])
+            if short == 'count' and is_int(dt):
+                x = self.v(('i', dl))
+                self.fresh(z, x)
+                if base is not None and x is not None:
+                    z.add(x, base, 0)
+                return
         if short == 'len' and dl is not None and is_int(dt) and args:
             y = self.len_of(args[0])
             x = self.v(('i', dl))
